@@ -41,6 +41,13 @@ type c03prog struct {
 	Sat      bool      `json:"sat"`
 	// MaxName: the last counter's name has exactly the largest length a record can hold
 	MaxName bool `json:"maxname,omitempty"`
+	// LongNames: every counter name is padded to this length (so that a few
+	// hundred of them need several pages)
+	LongNames int `json:"longnames,omitempty"`
+	// ForeignGrow: before the schedule starts another process (a second file
+	// value on the same counter file) adds this many page-filling counters, so
+	// that the file is longer than this process's mapping of it
+	ForeignGrow int `json:"foreigngrow,omitempty"`
 }
 
 type vfMonFile struct {
@@ -51,13 +58,15 @@ type vfMonFile struct {
 }
 
 type c03env struct {
-	res   *verifrt.Result
-	dir   string
-	f     *file
-	now   time.Time
-	q     *verifrt.Quarantine
-	ctrs  []*Counter
-	names []string
+	res *verifrt.Result
+	dir string
+	f   *file
+	// foreign: another process's view of the same counter file
+	foreign *file
+	now     time.Time
+	q       *verifrt.Quarantine
+	ctrs    []*Counter
+	names   []string
 	// begun is a 128-bit sum per counter (hi, lo)
 	begunHi, begunLo []uint64
 	mon              map[string]*vfMonFile
@@ -106,6 +115,11 @@ func newC03env(res *verifrt.Result, base string) *c03env {
 func (e *c03env) close() {
 	if m := e.f.current.Load(); m != nil {
 		m.close()
+	}
+	if e.foreign != nil {
+		if m := e.foreign.current.Load(); m != nil {
+			m.close()
+		}
 	}
 	e.q.Release()
 	for _, m := range e.mon {
@@ -335,6 +349,8 @@ func c03CorePrograms() []c03prog {
 		{Name: "grow-vs-grow", PreOpen: true, PreFill: 3, NCtr: 1, PreTouch: []int{0}, Threads: [][]c03op{{{Kind: "grow"}, add(0)}, {{Kind: "grow"}, add(0)}}},
 		// counters still hold pending increments (the first open is walking them) while another thread's Adds fill the first page and re-map
 		{Name: "pending-open-vs-grow", NCtr: 2, PreTouch: []int{0, 1}, Threads: [][]c03op{{{Kind: "open"}}, {{Kind: "grow"}, {Kind: "grow"}, {Kind: "grow"}, {Kind: "grow"}, add(1)}}},
+		// another process has grown the file: the first new name re-maps it while increments of known counters go on
+		{Name: "add-vs-remap-after-foreign-growth", PreOpen: true, PreTouch: []int{0}, NCtr: 2, ForeignGrow: 5, Threads: [][]c03op{{add(0), add(0)}, {add(1)}}},
 		{Name: "read-vs-add", PreOpen: true, NCtr: 1, PreTouch: []int{0}, Threads: [][]c03op{{{Kind: "read"}}, {add(0), add(0)}}},
 		// a rotation that fails while a first increment of a counter is looking its record up
 		{Name: "fresh-add-vs-failed-rotate", PreOpen: true, NCtr: 2, PreTouch: []int{1}, Threads: [][]c03op{{add(0), add(1)}, {{Kind: "rotate-fail"}}, {add(1)}}},
@@ -409,6 +425,24 @@ func runC03(res *verifrt.Result, base string, p c03prog, st c03strategy, rnd *ve
 			res.Hit("counter-with-longest-name")
 			continue
 		}
+		if p.ForeignGrow > 0 && c == p.NCtr-1 {
+			// the last counter shares its bucket with the last record the other
+			// process adds (beyond this process's mapping): its lookup has to re-map
+			want := hash(vfBigName(5000+p.ForeignGrow-1)) % numHash
+			for n := 0; ; n++ {
+				nm := fmt.Sprintf("verif/coll%d", n)
+				if hash(nm)%numHash == want {
+					e.addCounter(nm)
+					break
+				}
+			}
+			continue
+		}
+		if p.LongNames > 0 {
+			n := fmt.Sprintf("verif/long%d/", c)
+			e.addCounter(n + strings.Repeat("l", p.LongNames-len(n)))
+			continue
+		}
 		e.addCounter(fmt.Sprintf("verif/c%d", c))
 	}
 	// sequential prologue (no scheduler active)
@@ -431,6 +465,15 @@ func runC03(res *verifrt.Result, base string, p c03prog, st c03strategy, rnd *ve
 			e.begin(c, 1)
 			e.ctrs[c].Add(1)
 		}
+	}
+	if p.PreOpen && p.ForeignGrow > 0 {
+		fb := &file{}
+		fb.rotate1()
+		for g := 0; g < p.ForeignGrow; g++ {
+			(&Counter{name: vfBigName(5000 + g), file: fb}).Add(1)
+		}
+		e.foreign = fb
+		res.Hit("file-grown-by-another-process")
 	}
 	e.lastCur = e.f.current.Load()
 	e.refreshMon()
@@ -541,6 +584,10 @@ func c03Judge(r *verifrt.Result, check string, i int, p c03prog, st c03strategy,
 			} else if addr, ok := verifrt.FaultAddr(t.Panic); ok {
 				if idx, label, ok := e.q.FindIndex(addr); ok {
 					timing, cause := "overlapping-call", e.causeAny()
+					if len(p.Threads) == 1 {
+						// the known hazards need a second goroutine
+						cause = "single-goroutine"
+					}
 					if idx < e.opStartUnmaps[t.ID] {
 						// the mapping was already gone when this call began
 						timing = "call-after-unmap"
@@ -621,6 +668,17 @@ func TestVerifC03(t *testing.T) {
 					{Thread: a, AtPt: "counterState.update:0:CompareAndSwap", Plus: d},
 					{Thread: bth, Until: -1},
 					{Thread: a, Until: -1}}}
+			case i%40 == 3:
+				// one goroutine only: many counters were incremented before the first
+				// open, so that flushing them extends the file more than once while
+				// the open is still walking the counters (an extension nested in the
+				// clean-up of another)
+				j := i / 40
+				p = c03prog{Name: "many-pending-then-open", NCtr: 150 + 10*(j%12), LongNames: 150 + 50*((j/12)%4), Threads: [][]c03op{{{Kind: "open"}}}}
+				for c := 0; c < p.NCtr; c++ {
+					p.PreTouch = append(p.PreTouch, c)
+				}
+				st = c03strategy{Kind: "random"}
 			case i%2 == 0: // targeted on core programs: systematic in (program, victim, k)
 				j := i / 2
 				p = core[j%len(core)]
@@ -681,6 +739,9 @@ func TestVerifC03(t *testing.T) {
 			if e.swaps > 0 {
 				r.Hit("mapping-swapped")
 			}
+			if p.Name == "many-pending-then-open" && e.swaps >= 3 {
+				r.Hit("nested-extension")
+			}
 			c03Judge(r, check, i, p, st, e, s)
 			if k < 2 && b == 0 {
 				r.Sample(map[string]any{"case": i, "program": p, "strategy": st, "steps": s.Steps, "mapping_swaps": e.swaps, "trace_head": fmt.Sprint(s.Trace[:min(len(s.Trace), 60)])})
@@ -688,7 +749,7 @@ func TestVerifC03(t *testing.T) {
 			e.close()
 		}
 	})
-	res.Require("counter-with-longest-name", "swap-while-reader-held", "swap-while-lock-held", "swap-with-pending-extra", "mapping-swapped", "saturating-program", "strategy:park", "strategy:pct", "strategy:random")
+	res.Require("counter-with-longest-name", "file-grown-by-another-process", "program:many-pending-then-open", "nested-extension", "swap-while-reader-held", "swap-while-lock-held", "swap-with-pending-extra", "mapping-swapped", "saturating-program", "strategy:park", "strategy:pct", "strategy:random")
 	if err := res.Write(); err != nil {
 		t.Fatal(err)
 	}
